@@ -719,7 +719,7 @@ UnitsPtr Units::clone() const
     units->setName(name());
 
     if (isImport()) {
-        units->setImportSource(importSource());
+        units->setImportSource(importSource()->clone());
     }
 
     units->setImportReference(importReference());
